@@ -195,7 +195,12 @@ func convertType(kind reflect.Kind, str string) (any, error) {
 
 		return uintValue, nil
 	case reflect.Float32, reflect.Float64:
-		floatValue, err := strconv.ParseFloat(str, 64)
+		bitSize := 64
+		if kind == reflect.Float32 {
+			bitSize = 32
+		}
+
+		floatValue, err := strconv.ParseFloat(str, bitSize)
 		if err != nil {
 			return 0, fmt.Errorf("the value %q cannot parsed as float", str)
 		}
@@ -213,9 +218,19 @@ func setMatchedPrimitiveValue(kind reflect.Kind, value reflect.Value, v any) err
 	case reflect.Bool:
 		value.SetBool(v.(bool))
 	case reflect.Int, reflect.Int8, reflect.Int16, reflect.Int32, reflect.Int64:
-		value.SetInt(v.(int64))
+		iv := v.(int64)
+		if value.OverflowInt(iv) {
+			return fmt.Errorf("值 %d 超出类型 %s 的范围", iv, value.Type())
+		}
+
+		value.SetInt(iv)
 	case reflect.Uint, reflect.Uint8, reflect.Uint16, reflect.Uint32, reflect.Uint64:
-		value.SetUint(v.(uint64))
+		uv := v.(uint64)
+		if value.OverflowUint(uv) {
+			return fmt.Errorf("值 %d 超出类型 %s 的范围", uv, value.Type())
+		}
+
+		value.SetUint(uv)
 	case reflect.Float32, reflect.Float64:
 		value.SetFloat(v.(float64))
 	case reflect.String:
